@@ -524,3 +524,7 @@ V("c12-tasks-property-unlocked", "C12", PG, "        with self._lock:\n         
 V("c12-update-advance-dropped", "C12", PG, "            if advance is not None:\n                task.completed += advance\n", "            if advance is not None:\n                pass\n", "R12.9")
 V("c12-update-completed-under-advance", "C12", PG, "            if completed is not None:\n                task.completed = completed\n", "            if completed is not None and advance is not None:\n                task.completed = completed\n", "R12.9")
 V("c12-reset-completed-conditional", "C12", PG, "            task.completed = completed\n            if visible is not None:", "            if completed:\n                task.completed = completed\n            if visible is not None:", "R12.9")
+TX7 = "rich/text.py"
+V("c05-append-text-spans-dropped", "C05", TX7, "        self._text.append(text.plain)\n        self._spans.extend(text_spans)\n        self._length += len(text)\n        return self\n\n    def append_tokens", "        self._text.append(text.plain)\n        self._length += len(text)\n        return self\n\n    def append_tokens", "R5.15")
+V("c05-append-tokens-span-dropped", "C05", TX7, "            if style is not None:\n                append_span(_Span(offset, offset + len(content), style))\n", "", "R5.15")
+V("c05-append-tokens-span-first-only", "C05", TX7, "            if style is not None:\n                append_span(_Span(offset, offset + len(content), style))\n", "            if style is not None and not self._spans:\n                append_span(_Span(offset, offset + len(content), style))\n", "R5.15")
